@@ -599,7 +599,9 @@ impl LangGen {
                 self.tag("qq-dotted-tail");
                 let t = self.fresh("t");
                 let init = self.expr(Ty::Int, cx, d);
-                match self.rng.below(3) {
+                match self.rng.below(5) {
+                    3 => format!("(let (({t} {init})) ((lambda () (vector-ref `#(item ,{t}) 1))))", t = t, init = init),
+                    4 => format!("(((lambda ({t}) (lambda (u) (vector-ref (car (cdr `(,u #(0 ,{t})))) 1))) {init}) 0)", t = t, init = init),
                     0 => format!("(let (({t} {init})) ((lambda () (cdr `(item . ,{t})))))", t = t, init = init),
                     1 => format!("(let (({t} {init})) (let ((k (lambda () `(1 item . ,{t})))) (cdr (cdr (k)))))", t = t, init = init),
                     _ => format!("(((lambda ({t}) (lambda (u) (cdr `(,u . ,{t})))) {init}) 0)", t = t, init = init),
